@@ -245,7 +245,9 @@ def validate(prop, tier, seed, ctx, families, n_quick=480, n_thorough=12000, rep
                 rej[int(m.group(1))] = (m.group(2), json.loads(json.loads(m.group(3))))
     ctx.states += res["distinct"]
     ctx.transitions += res["states"]
-    bad_controls = [c["id"] for c in controls if c["id"] in acc]
+    # a control is the corrupted copy of event -id-1... it must be rejected whenever the original was accepted (if the
+    # original itself is rejected - the code under test disagrees with the specification - its corrupted copy proves nothing)
+    bad_controls = [c["id"] for c in controls if c["id"] in acc and (-c["id"] - 1) in acc]
     if bad_controls:
         raise T.TLCError("%d corrupted control events were accepted by TraceOps" % len(bad_controls))
     if len(acc) + len(rej) != len(events) + len(controls):
